@@ -17,7 +17,7 @@ func init() {
 			"A4 the read buffer is parsed only as buffer[:n]; K1/K2 Chain visits every member once in order, folds Bind results, keeps every Close error; Registry builds one member per factory. " +
 			"Composition over chains follows by induction over the fold K1 establishes.",
 		notDecided: "byte equality as seen by the downstream writer under concurrent injections; option combinations that fail construction; the buffering interceptors (pacing, jitterbuffer, cc pacer) which C01 excludes; ordering between concurrent callers",
-		sels: []sel{s("X5"), s("V2"), s("O3"), s("A7"), so("A6"), s("K3", `\|interceptor[.:]`), s("A0"), s("A1"), s("A2"), s("A3"), sx("A4", buffering), s("K1"), s("K2")},
+		sels: []sel{s("F9"), s("X5"), s("V2"), s("O3"), s("A7"), so("A6"), s("K3", `\|interceptor[.:]`), s("A0"), s("A1"), s("A2"), s("A3"), sx("A4", buffering), s("K1"), s("K2")},
 		assumptions: []string{
 			"go/ssa and go/types model the program faithfully; callees are resolved by type information (static callee or CHA/VTA call graph)",
 			"pion/rtp Header methods are classified by a frozen table read off pion/rtp v1.10.5 (mutators: SetExtension, SetExtensionWithProfile, DelExtension, ClearExtensions, Unmarshal)",
@@ -46,7 +46,7 @@ func init() {
 			"C2 state declared goroutine-confined is only accessed in functions reachable (call graph) from its owner goroutine's entry; C3 fields used with sync/atomic are only used with sync/atomic; C4 every other field of a lock-bearing type is never stored to on a shared object outside constructors/option closures (setup-time setters listed); " +
 			"C5 the held→acquired lock graph is acyclic, no mutex is re-acquired while held on the same object, and no WaitGroup.Wait/blocking channel operation happens under a lock its counterpart can need; D4 the close of each lifecycle channel and the isClosed/Add/go start sequence run under the same mutex; H3 every plain send on a channel that a Close method closes is made on the not-closed branch of a closed test while a lock is read-held that the closing site holds exclusively (Close racing with traffic cannot send on a closed channel).",
 		notDecided:  "races on memory the table does not name (fields of pion/rtp, pion/rtcp, x/time/rate objects; the Attributes map handed to packetdump's logger goroutine), lost updates that are not data races, liveness, stalls while a private lock is held across a downstream Write (noted, not a violation)",
-		sels:        []sel{s("V2"), s("O5"), s("O4"), s("C9"), s("C8"), s("C7"), s("C1"), s("C2"), s("C3"), s("C4"), s("C5"), s("C6"), s("D4"), s("H3")},
+		sels:        []sel{s("R1"), s("V2"), s("O5"), s("O4"), s("C9"), s("C8"), s("C7"), s("C1"), s("C2"), s("C3"), s("C4"), s("C5"), s("C6"), s("D4"), s("H3")},
 		assumptions: append([]string{"locks are identified by (struct type, field): two instances of one type are not distinguished", "the guard table and confinement table are hand-confirmed; every row must resolve to at least one access or the check fails", "exported methods are entry points with an empty lockset"}, stdAssume...),
 	})
 	def(&propDef{
@@ -54,7 +54,7 @@ func init() {
 		explanation: "Decides for every go statement, goroutine loop, API-path channel operation, lifecycle channel and per-stream container: D1 each goroutine is dominated by WaitGroup.Add on a field of its owner, its entry defers Done, the owner's Close reaches Wait on every path; D2 every blocking loop in a goroutine has a select case on (or ranges over) a channel that a Close method closes, and that case leaves the loop; " +
 			"D3 every send/receive on an internal channel in a function reachable from the API sits in a select with a close-channel case or a default; D4 close(lifecycle) and the start sequence share a mutex; D5 every container keyed by StreamInfo.SSRC that Bind{Local,Remote}Stream fills is emptied by the Unbind of the same direction and binding installs fresh state; D6 Bind starts a goroutine only on the not-closed branch of a closed test; C5(wait) a WaitGroup.Wait or blocking channel operation executed while a lock is held (including a lock held by the caller of Close) has no counterpart goroutine that can need that lock — Close cannot deadlock against the goroutine it waits for.",
 		notDecided:  "wall-clock promptness; goroutines blocked inside a user-supplied writer; that nothing is written after Close returns when the goroutine is accounted but slow; double Close",
-		sels:        []sel{s("N3"), s("U3"), s("D9"), s("D8"), s("D7"), s("N1"), s("N2"), s("C7"), s("D1"), s("D2"), s("D3"), s("D4"), s("D5"), s("D6"), s("C5", `\|wait:`)},
+		sels:        []sel{s("Y1"), s("F9"), s("N3"), s("U3"), s("D9"), s("D8"), s("D7"), s("N1"), s("N2"), s("C7"), s("D1"), s("D2"), s("D3"), s("D4"), s("D5"), s("D6"), s("C5", `\|wait:`)},
 		assumptions: append([]string{"channels are identified by the struct fields / make sites they flow through (parameters resolved through static call sites)", "only closes executed from a Close method count as shutdown signals"}, stdAssume...),
 	})
 }
@@ -90,7 +90,7 @@ func init() {
 		explanation: "Decides a necessary structural clause for every long-lived container of the library (every map, slice, list, sync.Map and channel field of a struct type that another struct holds, plus slices local to goroutine loops and the jitter buffer's linked list): E1 — a container that grows on a traffic path (reachable from a per-packet closure, a goroutine entry or a pacer/estimator entry point) also shrinks on a traffic path, or is of a bounded kind (channel with a configured capacity, map keyed by a ≤16-bit type, owner struct replaced as a whole, per-call temporary); " +
 			"E2 — a shrink site that only executes when a struct field is set counts only if something in the program sets that field; E3 — where a growing slice is processed on an equality trigger len(x)==N, every path from that branch resets it (otherwise the length passes N and the trigger never fires again); D5 — per-stream containers filled by Bind*Stream are emptied by the matching Unbind*Stream.",
 		notDecided:  "the numeric bound itself; whether an existing shrink runs often enough; GC reachability through third-party objects; growth hidden inside pion/rtp, pion/rtcp or x/time/rate",
-		sels:        []sel{s("E7"), s("E6"), s("E5"), s("E4", `\|pkg/stats[.:]`), s("K4", `\|pkg/stats[.:]`), s("C6", `keyed-update`), s("E1"), s("E2"), so("E3"), s("D5")},
+		sels:        []sel{s("Y1"), s("E7"), s("E6"), s("E5"), s("E4", `\|pkg/stats[.:]`), s("K4", `\|pkg/stats[.:]`), s("C6", `keyed-update`), s("E1"), s("E2"), so("E3"), s("D5")},
 		assumptions: []string{"go/ssa and go/types model the program faithfully", "traffic paths are the call-graph closure of per-packet closures, goroutine entries and the exported per-packet entry points of pacers/estimators/recorders"},
 	}
 }
@@ -138,7 +138,7 @@ func init() {
 			"H2 — in the publishing function every pacer.SetTargetBitrate call and every invocation of the change callback receives the stored value itself (same SSA value or a reload of the field), and GetTargetBitrate returns that field (under SendSideBWE.lock by C1); " +
 			"H3 — every call path to a plain send on a channel that a Close method closes passes a closed test on its not-closed branch while a lock is read-held that the closing site holds exclusively (no send on a closed pipe, documented closed error otherwise); C5 — that wait-under-lock is deadlock-free; C1/C2 rows of the gcc types.",
 		notDecided:  "anything about the floating-point pipeline itself (rate = bits/dt with dt = 0, 0/0 in increase) beyond the fact that the clamp absorbs it; that feedback never blocks for long (consumers are goroutines fed through unbuffered pipes)",
-		sels:        []sel{s("O4", `inspected|makers|\|pkg/(cc|gcc)[.:]`), s("D9", `pkg/gcc\.`), s("D8", `pkg/gcc\.`), s("U2", `\|pkg/gcc[.:]`), s("U1", `\|pkg/gcc[.:]`), s("W1", `\|pkg/(gcc|cc)[.:]`), s("V1", `\|pkg/(gcc|cc)[.:]`), s("C9", `inspected|gcc\.`), s("A5", `pkg/(cc|gcc)\.`), s("C7", `pkg/gcc\.`), s("H1"), s("H2"), s("H3"), s("C5", `gcc\.`), s("C1", `pkg/gcc\.`), s("C2", `pkg/gcc\.`)},
+		sels:        []sel{s("F9", `inspected|\|pkg/(cc|gcc)[.:]`), s("R1", `inspected|\|pkg/gcc[.:]`), s("O4", `inspected|makers|\|pkg/(cc|gcc)[.:]`), s("D9", `pkg/gcc\.`), s("D8", `pkg/gcc\.`), s("U2", `\|pkg/gcc[.:]`), s("U1", `\|pkg/gcc[.:]`), s("W1", `\|pkg/(gcc|cc)[.:]`), s("V1", `\|pkg/(gcc|cc)[.:]`), s("C9", `inspected|gcc\.`), s("A5", `pkg/(cc|gcc)\.`), s("C7", `pkg/gcc\.`), s("H1"), s("H2"), s("H3"), s("C5", `gcc\.`), s("C1", `pkg/gcc\.`), s("C2", `pkg/gcc\.`)},
 		assumptions: std,
 	}
 }
@@ -157,7 +157,7 @@ func init() {
 		explanation: "Decides the structural clauses: M1 — in FlexEncoder03.encodeFlexFecPacket all accesses to the coverage table (GetCoveredBy, ExtractMask1/2/3_03) use one and the same index value, so the masks written name exactly the packets that were combined, and the repair sequence number is advanced exactly once on every path that produces a packet and on none that does not; " +
 			"P2 + A1 — the application's packet is forwarded first, exactly once, unmodified (A3), and repair packets are injections issued only after it; B — what is buffered for XOR is a deep copy of what was sent (caller may reuse its buffer); F2 — the scratch buffer is re-allocated when a packet exceeds the pooled size; E3/C1 — the batch buffer is reset on every path from the batch-full trigger, under the stream mutex.",
 		notDecided:  "XOR recoverability itself, bit layout of the masks, header offsets and length recovery — algebra over byte values; the coverage mask construction (flexfec_coverage.go); FlexEncoder20 and the decoder (declared work in progress)",
-		sels:        []sel{s("V3", `inspected|\|pkg/flexfec[.:]`), s("W2", `inspected|\|pkg/flexfec[.:]`), s("X4", `inspected|\|pkg/flexfec[.:]`), s("W1", `\|pkg/flexfec`), s("V1", `\|pkg/flexfec`), s("T5", `inspected|flexfec`), so("T4", `flexfec`), s("K4", `\|pkg/flexfec[.:]`), s("T3", `flexfec`), s("M1"), so("P2", `flexfec`), s("A1", `flexfec`), s("A3", `flexfec`), s("B", `flexfec`), so("F2", `flexfec`), so("E3", `flexfec`), s("C1", `flexfec\.`)},
+		sels:        []sel{so("P4"), s("V3", `inspected|\|pkg/flexfec[.:]`), s("W2", `inspected|\|pkg/flexfec[.:]`), s("X4", `inspected|\|pkg/flexfec[.:]`), s("W1", `\|pkg/flexfec`), s("V1", `\|pkg/flexfec`), s("T5", `inspected|flexfec`), so("T4", `flexfec`), s("K4", `\|pkg/flexfec[.:]`), s("T3", `flexfec`), s("M1"), so("P2", `flexfec`), s("A1", `flexfec`), s("A3", `flexfec`), s("B", `flexfec`), so("F2", `flexfec`), so("E3", `flexfec`), s("C1", `flexfec\.`)},
 		assumptions: std,
 	}
 	props["C17"] = &propDef{
@@ -173,7 +173,7 @@ func init() {
 		explanation: "Decides: S1 — every store into a field of the exported *StreamStats structs in the recorder's record* methods is dominated by a branch condition computed from the recorder's own SSRC (header SSRC, MediaSSRC, report SSRC or DestinationSSRC membership compared with r.ssrc): a counter only moves for traffic addressed to that SSRC; S2 — the loops over the packets of a compound RTCP have no early exit (every packet of the compound is visited); S3 — no branch inside such a loop tests a loop-carried boolean that was computed from the recorder's SSRC for an earlier packet (each packet is judged by itself); " +
 			"A1/A2 on the four stats closures — every forwarded / successfully read packet is handed to the recorder exactly once and a failed read never is; C1/C6 — latestStats is only read and updated under recorder.ms in one critical section (no lost update).",
 		notDecided:  "every formula: packets lost as expected-minus-received, jitter, RTT from LSR/DLSR and DLRR, fraction lost, NTP conversions — numerical",
-		sels:        []sel{s("U2", `\|pkg/stats[.:]`), s("U1", `\|pkg/stats[.:]`), s("W2", `inspected|\|pkg/stats[.:]`), s("X4", `inspected|\|pkg/stats[.:]`), s("X3", `inspected|\|pkg/stats[.:]`), s("S7"), s("S6"), s("W1", `\|pkg/stats[.:]`), s("V1", `\|pkg/stats[.:]`), s("E4", `\|pkg/stats[.:]`), s("K4", `\|pkg/stats[.:]`), s("P3", `stats\.internalStats`), s("S1"), s("S2"), s("S3"), s("S4"), s("S5"), s("A1", `stats\.`), s("A2", `stats\.`), s("C1", `stats\.`), so("C6", `stats\.`)},
+		sels:        []sel{s("U2", `\|pkg/stats[.:]`), s("U1", `\|pkg/stats[.:]`), s("S9"), s("S8"), s("W2", `inspected|\|pkg/stats[.:]`), s("X4", `inspected|\|pkg/stats[.:]`), s("X3", `inspected|\|pkg/stats[.:]`), s("S7"), s("S6"), s("W1", `\|pkg/stats[.:]`), s("V1", `\|pkg/stats[.:]`), s("E4", `\|pkg/stats[.:]`), s("K4", `\|pkg/stats[.:]`), s("P3", `stats\.internalStats`), s("S1"), s("S2"), s("S3"), s("S4"), s("S5"), s("A1", `stats\.`), s("A2", `stats\.`), s("C1", `stats\.`), so("C6", `stats\.`)},
 		assumptions: std,
 	}
 }
@@ -265,6 +265,19 @@ func init() {
 	add("C02", "A7 no reader reports more bytes than the caller's buffer holds (callers re-slice the buffer with n).")
 	add("C15", "I4 from every allocation of a number, every path to a downstream write passes the SetExtension that puts the number on the packet: a pass-through decided after the allocation would consume numbers that never leave.")
 	add("C04", "T6 a ring slot whose occupant was released (directly or through a helper that releases the slot it is told to) is assigned nil or the new packet on every path to the return, or the ring is reset: no slot keeps a packet the ring no longer owns.")
+	add("C14", "P4 in a writer closure that injects packets of its own (repair packets over a batch), every forward of the protected stream's packets is preceded on every path by a statement that keeps something derived from the header or payload beyond the call, unless it lies behind a test that the packet's SSRC is not the stream's: a pass-through in front of the buffering leaves a hole in the batch, the encoder refuses it as non-consecutive, and a whole group of media packets leaves unprotected.")
+	add("C04", "O2 also: in a writer closure that files its packets, no downstream Write can be reached from the entry without passing a filing call, except behind a test that the packet's SSRC is not the stream's: a packet forwarded although no copy could be kept is on the wire, will be NACKed, and the responder knows nothing of it (nor did its number advance the ring's window).")
+	add("C17", "Q3 also: no charge of the limiter is made with a negated amount (a refund hands tokens back and lets the drain loop go on in the same tick).")
+	add("C13", "B also: what a parse-cache getter (GetRTPHeader, GetRTCPPackets) returns is the caller's memory whatever bytes it is given, unless the attributes map was made in the same function: the cache answers with an inner interceptor's parse of the caller's buffer even when a private copy is passed in.")
+	add("C11", "Y1 in every Unbind*Stream method that removes from a registry of the interceptor, a return that skips the removal lies behind a not-found test of that registry — not behind a condition computed from the StreamInfo as it looks now or from a user filter: the stream's retained packets, writer and goroutines otherwise stay registered until Close.")
+	add("C12", "Y1 the same clause is what makes per-stream memory collectable after Unbind.")
+	add("C01", "F9 no call of the module or of pion/rtp, pion/rtcp has its error result dropped (the tree is errcheck-clean apart from the two constructors F4 judges): an error from the wrapped reader or writer, or from what an interceptor calls on the way, reaches the caller.")
+	add("C16", "F9 in pkg/cc and pkg/gcc: the estimator's error (ErrSendSideBWEClosed after Close, a malformed report) is what the RTCP reader returns — `_ = estimator.WriteRTCP(…)` reports success for feedback written through a closed estimator.")
+	add("C13", "B the DisableCopy opt-out covers the non-copying packet factory where the user's choice is honoured — a call through the configured PacketFactory value; a PacketFactoryNoOp the responder builds itself (a fallback for packets the copying factory refuses) retains the caller's header and payload without being asked to.")
+	add("C19", "S8 no branch is decided by a comparison of a FullIntraRequest's MediaSSRC: a FIR names its targets in its FCI entries (DestinationSSRC()), the header's media-source field is unused and zero on the wire (RFC 5104 4.3.1) — counting FIRs by it attributes a conformant FIR to no stream and one with several entries to at most one.")
+	add("C19", "S9 in the recording functions, a counter incremented on a match inside a loop that searches one of the recorder's histories (lastSenderReports, lastReceiverReferenceTimes) lies outside the loop's body — the match ends the search: a history holding the same middle-32-bit value twice otherwise books one reply as several round-trip measurements.")
+	add("C10", "R1 a slice or map received from a channel is only read: no element store, copy into it, append onto a re-slice, delete, or in-place algorithm of sort/slices — the sender hands the same batch to more than one consumer (the delay controller to the arrival-group accumulator and the rate calculator), unsynchronised. Selected likewise under C16.")
+	add("C17", "Q3 also requires that what is tested is what is charged: the amount the budget is compared with and the amount passed to AllowN are the same quantity (same non-constant sources under the same constant factors, conversions aside) — a packet admitted against a capped cost fails the full-size charge, which deducts nothing, and leaves for free.")
 	add("C02", "N3 no function with an interface result returns a pointer that may be nil boxed in that interface (a φ with a nil edge): the interface is then non-nil, the caller's `!= nil` guard passes and the method call behind it dereferences nil — a panic in whichever goroutine runs it.")
 	add("C11", "N3 the same clause keeps Close from panicking a service goroutine it is waiting for (a disabled ticker returned as a typed nil, then stopped in the loop's deferred clean-up).")
 	add("C02", "W2 a constant left shift is not done in a narrower integer type and widened afterwards (the bits shifted out are lost), and a slice size that is a difference of unsigned operands is dominated by a comparison of the two operands (a wrapped difference makes make panic in the caller of Read).")
